@@ -86,6 +86,8 @@ def cases(rng, tier):
     out = []
     for i in range(n):
         g = structgen.Gen(rng, allow_f64=False, allow_rts=True, allow_atomic=True, square_mats_only=(i % 6 != 0))
+        if i % 3 == 1:
+            g.aliases = {}          # some member types are spelled through WGSL `alias` declarations
         structs = []
         for k in range(rng.randint(1, 4)):
             structs.append(g.new_struct("E%d" % k, depth=rng.randint(0, 2)))
@@ -117,7 +119,10 @@ def cases(rng, tier):
             ms = rng.sample(pool, rng.randint(2, 4))
             part = Ty("struct", name="Particle", members=ms, has_rts=False)
             b += 1
-            lines.insert(0, g.render_struct(part, locations=list(range(len(ms)))))
+            locs_ = list(range(len(ms)))
+            if rng.random() < 0.6:
+                rng.shuffle(locs_)       # location numbers unrelated to the member order (the memory layout follows the members)
+            lines.insert(0, g.render_struct(part, locations=locs_))
             lines.append("@group(0) @binding(%d) var<storage, read_write> particles: array<Particle, 4>;" % (b + 1))
             lines.append("@vertex fn vs_main(p: Particle) -> @builtin(position) vec4<f32> { return vec4<f32>(0.0); }")
             extra.append(part)
@@ -130,6 +135,8 @@ def cases(rng, tier):
             lines.insert(0, g.render_struct(v3))
             lines.append("@group(1) @binding(0) var<storage, read_write> v3arr: V3Arr;")
             extra.append(v3)
+        if g.aliases:
+            lines = ["alias %s = %s;" % (nm, txt) for txt, nm in g.aliases.items()] + lines
         out.append({"wgsl": "\n".join(lines) + "\n", "family": "encase_glam", "opts": {"encase": True, "mv": "Glam"},
                     "tys": structs + ([rts] if rts else []) + extra, "rts_lengths": [0, 1, 3]})
     return out
